@@ -418,6 +418,10 @@ func (c *Ctx) mapAccessKeyOK(call *ssa.Call, recv, key ssa.Value) (bool, string)
 		k := core.CalleeKey(&sc.Call)
 		switch {
 		case k == "reflect.Value.Convert":
+			// converted to the key type of the map that is accessed
+			if m := keyTypeOfMap(sc.Call.Args[1]); m != nil && !(m == recv || sharesSource(m, recv)) {
+				return false, "a key converted to the key type of another map"
+			}
 			continue
 		case k == "reflect.ValueOf":
 			return false, "reflect.ValueOf of a Go string: its type is string, not the map's key type"
@@ -533,44 +537,42 @@ func (c *Ctx) isTypeEqualityTest(cond ssa.Value, key ssa.Value, recv ssa.Value) 
 		return ok && core.CalleeKey(&call.Call) == "reflect.Value.Type" && (call.Call.Args[0] == key || sharesSource(call.Call.Args[0], key))
 	}
 	isMapKeyType := func(v ssa.Value) bool {
-		for _, s := range traceSources(v) {
-			call, ok := s.(*ssa.Call)
-			if ok && strings.HasSuffix(core.CalleeKey(&call.Call), ".Key") {
-				return true
-			}
-		}
-		return false
+		// the key type of the map that is accessed (not of the map the key was taken from)
+		m := keyTypeOfMap(v)
+		return m != nil && (m == recv || sharesSource(m, recv))
 	}
 	if (isKeyType(bo.X) && isMapKeyType(bo.Y)) || (isKeyType(bo.Y) && isMapKeyType(bo.X)) {
 		return true
 	}
 	// the key types of the two maps compared: every key of a map has that map's key type
-	keyTypeOfMap := func(v ssa.Value) ssa.Value {
-		for _, s := range traceSources(v) {
-			call, ok := s.(*ssa.Call)
-			if !ok || !strings.HasSuffix(core.CalleeKey(&call.Call), ".Key") {
-				continue
-			}
-			var tv ssa.Value
-			if call.Call.IsInvoke() {
-				tv = call.Call.Value
-			} else if len(call.Call.Args) > 0 {
-				tv = call.Call.Args[0]
-			}
-			for _, ts := range traceSources(tv) {
-				if tc, ok := ts.(*ssa.Call); ok && core.CalleeKey(&tc.Call) == "reflect.Value.Type" {
-					return tc.Call.Args[0]
-				}
-			}
-		}
-		return nil
-	}
 	km := mapOfKey(key)
 	ma, mb := keyTypeOfMap(bo.X), keyTypeOfMap(bo.Y)
 	if km == nil || ma == nil || mb == nil {
 		return false
 	}
 	return (sharesSource(ma, km) && sharesSource(mb, recv)) || (sharesSource(mb, km) && sharesSource(ma, recv))
+}
+
+// keyTypeOfMap: v is M.Type().Key() for a reflect.Value M; returns M.
+func keyTypeOfMap(v ssa.Value) ssa.Value {
+	for _, s := range traceSources(v) {
+		call, ok := s.(*ssa.Call)
+		if !ok || !strings.HasSuffix(core.CalleeKey(&call.Call), ".Key") {
+			continue
+		}
+		var tv ssa.Value
+		if call.Call.IsInvoke() {
+			tv = call.Call.Value
+		} else if len(call.Call.Args) > 0 {
+			tv = call.Call.Args[0]
+		}
+		for _, ts := range traceSources(tv) {
+			if tc, ok := ts.(*ssa.Call); ok && core.CalleeKey(&tc.Call) == "reflect.Value.Type" {
+				return tc.Call.Args[0]
+			}
+		}
+	}
+	return nil
 }
 
 // mapOfKey: the reflect map value a key was taken from (by MapRange/MapKeys or Seq2).
